@@ -100,6 +100,7 @@ type FnGen struct {
 	entryVals   map[string]string // decreases measure at entry
 	ghostLocals map[string]Val
 	qfacts      []QFact
+	autoInvs    map[*ssa.BasicBlock][]autoInv
 }
 
 func NewFnGen(P *Program, S *Specs, E *Effects, fn *ssa.Function) *FnGen {
@@ -108,7 +109,7 @@ func NewFnGen(P *Program, S *Specs, E *Effects, fn *ssa.Function) *FnGen {
 		blockGuard: map[*ssa.BasicBlock]string{}, exitState: map[*ssa.BasicBlock]State{},
 		edgeCond: map[[2]*ssa.BasicBlock]string{}, loops: map[*ssa.BasicBlock]*loopInfo{},
 		env: map[string]Val{}, siteNames: map[ssa.Instruction]string{}, callOrd: map[ssa.Instruction]int{},
-		assumptions: map[string]bool{}, usedExtern: map[string]bool{}, defaultPure: map[string]bool{}}
+		assumptions: map[string]bool{}, usedExtern: map[string]bool{}, defaultPure: map[string]bool{}, autoInvs: map[*ssa.BasicBlock][]autoInv{}}
 	g.C = S.Contracts[g.name]
 	g.D.ensureLive()
 	return g
